@@ -414,7 +414,7 @@ def main(modname, argv):
 
     tb = ['Coq 8.16.1 kernel (coqc, full .vo build; vm_compute used for finite sweeps)',
           'Print Assumptions of Props/%s.v: %s' % (prop, 'all theorems closed under the global context' if assumptions and not nonclosed else json.dumps(assumptions)),
-          'translator tools/translate.py (Gen/*.v regenerated from /repo this run)',
+          'translator tools/translate.py (tables) and function translator tools/symtrans.py + symspecs.py (function bodies executed on symbolic arguments): Gen/*.v regenerated from /repo this run',
           'extraction: ExtrOcamlBasic only, no Extract Constant / Extract Inductive of our own; driver.ml; OCaml 4.13.1',
           'correspondence harness tools/harness/%s.py and CPython' % modname.split('.')[-1]] + list(getattr(mod, 'TRUSTED', []))
     ev = {
